@@ -2,7 +2,6 @@ package props
 
 import (
 	"bytes"
-	"context"
 	"encoding/json"
 	"fmt"
 	"math/rand"
@@ -14,12 +13,6 @@ import (
 	"sync"
 	"time"
 
-	"github.com/mimecast/dtail/internal/io/fs"
-	"github.com/mimecast/dtail/internal/io/line"
-	"github.com/mimecast/dtail/internal/lcontext"
-	dregex "github.com/mimecast/dtail/internal/regex"
-	"github.com/mimecast/dtail/internal/source"
-	"github.com/mimecast/dtail/verifharness/internal/dt"
 	"github.com/mimecast/dtail/verifharness/internal/vlib"
 )
 
@@ -27,7 +20,6 @@ import (
 
 func init() {
 	Drivers["C04"] = c04
-	Children["c04api"] = c04Child
 }
 
 type c04Write struct {
@@ -81,105 +73,6 @@ func fdPos(pid int, path string) int64 {
 		}
 	}
 	return -1
-}
-
-func c04Child(args []string) int {
-	dir := args[0]
-	dt.Init(source.Server, "none", "none", "error", true)
-	rdir, _ := filepath.EvalSymlinks(dir)
-	return vlib.BatchMainPar(dir, 16, func(i int, raw json.RawMessage) interface{} {
-		var c c04Case
-		json.Unmarshal(raw, &c)
-		var res c04Result
-		path := filepath.Join(rdir, fmt.Sprintf("follow-%d.log", i))
-		os.WriteFile(path, []byte(c.Old), 0644)
-		defer os.Remove(path)
-		re, err := dregex.New(c.Pattern, dregex.Default)
-		if err != nil {
-			res.Err = err.Error()
-			return res
-		}
-		serverMessages := make(chan string, 16)
-		lines := make(chan *line.Line, c.Cap)
-		ctx, cancel := context.WithCancel(context.Background())
-		go func() {
-			for {
-				select {
-				case <-serverMessages:
-				case <-ctx.Done():
-					return
-				}
-			}
-		}()
-		var mu sync.Mutex
-		lastDelivery := time.Now()
-		consDone := make(chan struct{})
-		go func() {
-			defer close(consDone)
-			for {
-				select {
-				case l := <-lines:
-					mu.Lock()
-					res.Delivered = append(res.Delivered, c04Delivered{l.Content.String(), l.Count, l.TransmittedPerc})
-					lastDelivery = time.Now()
-					mu.Unlock()
-					if c.ConsumeMs > 0 {
-						time.Sleep(time.Duration(c.ConsumeMs * float64(time.Millisecond)))
-					}
-				case <-ctx.Done():
-					return
-				}
-			}
-		}()
-		readerDone := make(chan struct{})
-		go func() {
-			defer close(readerDone)
-			reader := fs.NewTailFile(path, "id", serverMessages)
-			reader.Start(ctx, lcontext.LContext{}, lines, re)
-		}()
-		// wait until the reader has opened the file and sits at its end
-		size := int64(len(c.Old))
-		deadline := time.Now().Add(10 * time.Second)
-		for time.Now().Before(deadline) {
-			if fdPos(os.Getpid(), path) == size {
-				res.Positioned = true
-				break
-			}
-			time.Sleep(2 * time.Millisecond)
-		}
-		if !res.Positioned {
-			cancel()
-			<-readerDone
-			return res
-		}
-		fd, _ := os.OpenFile(path, os.O_APPEND|os.O_WRONLY, 0644)
-		for _, w := range c.Writes {
-			fd.Write(w.Data)
-			if w.PauseMs > 0 {
-				time.Sleep(time.Duration(w.PauseMs) * time.Millisecond)
-			}
-		}
-		fd.Close()
-		mu.Lock()
-		lastDelivery = time.Now()
-		mu.Unlock()
-		// let the follower drain: finished when nothing was delivered for 700 ms
-		// (7 polls of the reader) - bounded by 30 s.
-		end := time.Now().Add(30 * time.Second)
-		for time.Now().Before(end) {
-			mu.Lock()
-			idle := time.Since(lastDelivery)
-			mu.Unlock()
-			if idle > 700*time.Millisecond && len(lines) == 0 {
-				break
-			}
-			time.Sleep(20 * time.Millisecond)
-		}
-		cancel()
-		<-readerDone
-		<-consDone
-		return res
-	})
 }
 
 // chunk cuts the appended text into write() calls.
